@@ -68,12 +68,48 @@ THEOREMS = [
     "JanetModel.Bytecode.VMPasses.movopt_preserves_tables_x",
     "JanetModel.Props.C15.movopt_preserves_instance_x",
     "JanetModel.Props.C15.remove_noops_retargets_ok",
+    # session 4: statement skeletons of the hand-modelled C bodies (one obligation per function), fixed-arity handlers as emitters
+    "JanetModel.Props.C15.skeleton_genericSS_ok",
+    "JanetModel.Props.C15.skeleton_genericSSI_ok",
+    "JanetModel.Props.C15.skeleton_opfunction_ok",
+    "JanetModel.Props.C15.skeleton_can_be_imm_ok",
+    "JanetModel.Props.C15.skeleton_can_slot_be_imm_ok",
+    "JanetModel.Props.C15.skeleton_reduce_target_ok",
+    "JanetModel.Props.C15.skeleton_opreduce_ok",
+    "JanetModel.Props.C15.skeleton_compreduce_ok",
+    "JanetModel.Props.C15.skeleton_janetc_funopt_ok",
+    "JanetModel.Props.C15.skeleton_do_apply_ok",
+    "JanetModel.Props.C15.skeleton_do_debug_ok",
+    "JanetModel.Props.C15.skeleton_do_error_ok",
+    "JanetModel.Props.C15.skeleton_do_get_ok",
+    "JanetModel.Props.C15.skeleton_do_put_ok",
+    "JanetModel.Props.C15.skeleton_do_yield_ok",
+    "JanetModel.Props.C15.skeleton_janet_quick_asm_ok",
+    "JanetModel.Props.C15.skeleton_janetc_check_nil_form_ok",
+    "JanetModel.Props.C15.skeleton_janetc_call_selection_ok",
+    "JanetModel.Props.C15.skeleton_names_ok",
+    "JanetModel.Props.C15.special_ops_ok",
+    "JanetModel.Props.C15.fixed_emit_defined",
+    "JanetModel.Props.C15.fixed_emitted_eq_generic",
+    "JanetModel.Spec.shape_emit_computes",
+    "JanetModel.Spec.get3_computes",
+    "JanetModel.Spec.get3_alias_computes",
+    "JanetModel.Spec.put_computes",
+    "JanetModel.Spec.put_drop_computes",
+    "JanetModel.Spec.sss_computes",
+    "JanetModel.Spec.sssnil_computes",
+    "JanetModel.Spec.ss_computes",
+    "JanetModel.Spec.ssk_computes",
+    "JanetModel.Spec.ssknil_computes",
+    "JanetModel.Spec.error_computes",
+    "JanetModel.Spec.evalInlineFixed_shape",
 ]
 
 
 def run(ctx, quick, broken, janet, scratch):
     cov = {}
     tree = ctx.build.tree
+    text = ""
     try:
         ctx.gen("Bytecode.lean", gen_bytecode.render(tree))
         text, found = gen_cfuns.render(tree)
@@ -99,6 +135,7 @@ def run(ctx, quick, broken, janet, scratch):
             cov["evaluations"] = cov.get("evaluations", 0) + 2 * cc["call_correspondence_completed"]
             cov["distinct_nontrivial"] = cov.get("distinct_nontrivial", 0) + cc.pop("call_correspondence_distinct")
             cov.update(cc)
+            cov.update(fixed_correspondence(ctx, quick, broken, janet, scratch, exe, tree, text))
         except ExtractError as e:
             msg = "translator (mnemonics / names): %s" % e
             broken.append(msg)
@@ -287,3 +324,77 @@ def call_correspondence(ctx, quick, broken, janet, scratch, exe, tree):
             "call_correspondence_kinds": {"apply": sum(1 for c in cases if c[0] == "apply"), "splice": sum(1 for c in cases if c[0] == "splice"),
                                           "not_indexed_errors": sum(1 for v in impl.values() if v[1] == "error:notindexed")},
             "call_correspondence_samples": [drv[k] for k in (0, len(drv) // 2, len(drv) - 1)]}
+
+
+# --------------------------------------------------------------------------------------------- fixed-arity emit correspondence
+PLUMBING = {"JOP_MOVE_NEAR", "JOP_RETURN", "JOP_RETURN_NIL", "JOP_LOAD_NIL"}
+
+
+def fixed_correspondence(ctx, quick, broken, janet, scratch, exe, tree, gen_text):
+    """(D) the fixed-arity handlers as emitters: for EVERY (fixed-arity row of optimizers[], admitted arity 0..3) - and `get` with the
+    target aliasing its default - the full instruction list (opcodes AND operands: registers, jump offset, signal number) of
+    Spec.emitShape is compared with what the real compiler emits for the call in value position."""
+    import re
+    from vlib.core import run_cmd
+    here = os.path.dirname(os.path.abspath(__file__))
+    mnem = gen_cfuns.mnemonics(tree)
+    opsl = dict(gen_bytecode.extract(tree)[0])
+    found = {}
+    rows, guards, special = gen_cfuns.extract_cfuns(tree, found)
+    funs = {f["tag"]: f for f in gen_cfuns.extract_corelib(tree, opsl, found)}
+    cases = []
+    for r in rows:
+        if r["h"][0] in ("opreduce", "compreduce") and r["guard"] == "NULL":
+            continue                      # variadic families: correspondence() above
+        if r["handler"] == "do_apply" or r["tag"] not in funs:
+            continue                      # call_correspondence() above
+        for n in range(0, 4):
+            if r["guard"] != "NULL":
+                op, ns = guards[r["guard"]]
+                if not ((op == "==" and n in ns) or (op == "<=" and n <= ns[0]) or (op == ">=" and n >= ns[0])):
+                    continue
+            cases.append((r["tagname"], funs[r["tag"]]["name"], n, False))
+            if r["handler"] == "do_get" and n == 3:
+                cases.append((r["tagname"], funs[r["tag"]]["name"], n, True))
+    drv = ["fixed %s %s %d" % (tag, "alias" if al else "val", n) for tag, name, n, al in cases]
+    jl = ["(FX %d %s %d %s)" % (i, name, n, "true" if al else "false") for i, (tag, name, n, al) in enumerate(cases)]
+    pth = os.path.join(scratch, "fixed-corr.janet")
+    with open(pth, "w") as f:
+        f.write(open(os.path.join(here, "fixed.janet")).read() + "\n" + "\n".join(jl) + "\n(file/flush stdout)\n")
+    env = dict(os.environ, ASAN_OPTIONS="detect_leaks=0:abort_on_error=0")
+    rc, out, err = run_cmd([janet, pth], timeout=300, env=env)
+    impl = {}
+    for line in out.decode(errors="replace").splitlines():
+        m = re.match(r"^(\d+) OPS (\S*)$", line)
+        if m:
+            ins = []
+            for x in m.group(2).split(","):
+                parts = x.split(":")
+                ins.append(":".join([mnem.get(parts[0], ("?" + parts[0], ""))[0]] + parts[1:]))
+            impl[int(m.group(1))] = ins
+    model = ctx.model(drv, exe=exe)
+    diffs, shapes = [], {}
+    for i, c in enumerate(cases):
+        tag, name, n, al = c
+        m = re.match(r"^ops=(\S*)$", model[i])
+        if i not in impl or not m:
+            diffs.append({"case": drv[i], "model": model[i], "impl": impl.get(i), "field": "missing"})
+            continue
+        want = [x for x in m.group(1).split(",") if x]
+        if al:
+            # register layout of the alias form: (var x a_{n-1}) copies the last parameter into register n, which is operand AND target
+            want = ["JOP_MOVE_NEAR:%d:%d" % (n, n - 1)] + want
+        got = impl[i]
+        shapes[",".join(w.split(":")[0] for w in want)] = 1
+        if got[:len(want)] != want or any(g.split(":")[0] not in PLUMBING for g in got[len(want):]):
+            diffs.append({"case": drv[i], "janet": jl[i], "field": "instructions", "model": want, "impl": got})
+    if rc != 0:
+        msg = "fixed-arity emit correspondence: implementation run failed: %s" % err.decode(errors="replace")[-300:]
+        broken.append(msg)
+        ctx.broken.append(msg)
+    if diffs:
+        msg = "correspondence Spec.emitShape vs the real compiler (fixed-arity specialisations): %d differing, first %r" % (len(diffs), diffs[0])
+        broken.append(msg)
+        ctx.broken.append(msg)
+    return {"fixed_emit_cases": len(cases), "fixed_emit_completed": len(impl), "fixed_emit_diffs": len(diffs), "fixed_emit_first_diffs": diffs[:5],
+            "fixed_emit_instruction_shapes": sorted(shapes), "fixed_emit_samples": [drv[0], drv[len(drv) // 2], drv[-1]]}
